@@ -16,7 +16,7 @@ race=""; [ "$id" = C17 ] && race="-race"
 rundemo() { cp $demo/*.go $wt/$pkg/; (cd $wt && timeout 900 go test $race -vet=off -count=1 -run "^($tests)\$" ./$pkg >$wt/.demo.log 2>&1); rc=$?; rm -f $wt/$pkg/zz_demo*; return $rc; }
 rundemo; c=$?
 git -C $wt apply $src/patch$k.diff || { echo "$id p$k patch-does-not-apply"; git -C /repo worktree remove --force $wt; exit 2; }
-(cd $wt && flock /tmp/.xsens_suite.lock timeout 1800 go test -vet=off -count=1 ./... >$wt/.suite.log 2>&1); s=$?
+(cd $wt && flock ${SUITE_LOCK:-/tmp/.xsens_suite.lock} timeout 1800 go test -vet=off -count=1 ./... >$wt/.suite.log 2>&1); s=$?
 rundemo; d=$?
 r() { [ $1 = 0 ] && echo PASS || echo FAIL; }
 echo "$id p$k clean-demo=$(r $c) suite=$(r $s) patched-demo=$(r $d) tests=$tests"
